@@ -145,6 +145,8 @@ def gen_project(rng, size="small", features=None, focus=None):
             c["rules"] = [{"name": "CC", "in": "c", "out": "o", "cmd": "cc-" + n + " ${CFLAGS} -c ${in} -o ${out}"}]
         if pick(rng, 0.1):
             c["var_options"] = {rng.choice(["CFLAGS", "LIBS"]): {"prefix": "-q"}}
+        if "rules" not in c and pick(rng, 0.12):
+            c["rules"] = [dict(contexts[0]["rules"][0], always=True)]     # the default CC rule, but always rebuilt
         contexts.append(c)
     nb = rng.randint(1, 3)
     builders = []
